@@ -74,6 +74,7 @@ from __future__ import annotations
 import copy
 import json
 import os
+import re
 import shutil
 import sys
 
@@ -112,7 +113,9 @@ ASSUMPTIONS = [
     'returns as it is is an immutable atom and is modelled as a leaf cell of the copy (as for deepcopy)',
     'no yaml anchors shared between two `in` values or two foreach items; dict keys are strings; values without '
     'formatting expressions (formatting is C08/C09)',
-    'special tag objects (!py, !sic, !jsonify) are treated as leaves of a definition',
+    'special tag objects (!py, !sic, !jsonify) are leaves of a definition in the model-compared streams; as arguments they are '
+    'judged by the monitors of stream (a2) (id() walk through object attributes, definition deep-equality, re-runs) and, in '
+    'the heap model, stand as obj cells with a payload reference (Props.C12 section 11)',
     'THE LOADER IS A FUNCTION OF THE FILE TEXT ALONE (Loader.TextOnly in lean/PypyrModel/LoadHist.lean): an assumption of '
     'the model, not a theorem - the yaml library is not modelled. Props/C12.lean section 11 proves what follows from it; '
     'the stream `loads` checks the assumption itself on the real file and string loaders: a definition obtained after a '
@@ -1392,7 +1395,180 @@ def check_loads(env, res, sb, case, tag='replay'):
 # entry points
 # ---------------------------------------------------------------------------------------------
 
-CHECKERS = {'alias': check_alias, 'history': check_history, 'orders': check_orders, 'loads': check_loads, 'threads': check_threads}
+# ---------------------------------------------------------------------------------------------
+# (a2) yaml tag objects as arguments: !jsonify over mappings / sequences (nested), !py, !sic as `in` arguments at any
+# depth, decorator values, foreach items, onError, pype args, set / default values; steps that change the payload of
+# a tag object in place; re-runs, a thread, definition deep-equality and the id() monitor after every step
+# ---------------------------------------------------------------------------------------------
+
+TAG_VALUES = [
+    '!jsonify {kind: report, tags: [base]}', '!jsonify [1, [2, 3], {k: [v]}]', '!jsonify {a: {b: {c: [1]}}, l: []}',
+    '!jsonify {inner: !sic "{raw}", l: [!py "1+1", {m: []}]}', '!jsonify []', '!jsonify {}', '!jsonify 5',
+    '!jsonify "txt"', '!sic "{raw} text"', '!py "[1, [2]]"', '!py "tag"', '!jsonify [[[]]]',
+    '!jsonify {k: &A [1, 2], again: *A}',
+]
+TAG_SCALARS = ['!py "1 + 1"', '!py "True"', '!sic "x"', '!jsonify 2']
+TAG_POSITIONS = ['in_top', 'in_dict', 'in_list', 'in_deep', 'in_saved', 'in_failing', 'foreach', 'foreach_nested',
+                 'onerror', 'pype_args', 'pype_args_parent', 'set', 'default', 'decorators', 'in_two_steps']
+
+
+def tag_step(pos, T, rng):
+    """(yaml text of the steps, child pipeline text or None)."""
+    S = rng.choice(TAG_SCALARS)
+    P = '  - vpoison\n'
+    if pos == 'in_top':
+        return f'  - name: vpoison\n    in:\n      body: {T}\n', None
+    if pos == 'in_dict':
+        return f'  - name: vpoison\n    in:\n      cfg:\n        x: 1\n        body: {T}\n        more: [{T}]\n', None
+    if pos == 'in_list':
+        return f'  - name: vpoison\n    in:\n      cfg:\n        - 0\n        - {T}\n        - - {T}\n', None
+    if pos == 'in_deep':
+        return f'  - name: vpoison\n    in:\n      cfg: {{a: {{b: [{{c: {T}}}]}}}}\n', None
+    if pos == 'in_saved':      # the block keeps the argument object in context beyond the step
+        return (f'  - name: pypyr.steps.py\n    in:\n      body: {T}\n      py: |\n        kept = body\n        save("kept")\n' + P), None
+    if pos == 'in_failing':    # a failing step leaves its `in` arguments where they are
+        return (f'  - name: pypyr.steps.assert\n    swallow: True\n    in:\n      body: {T}\n      assert:\n        this: False\n' + P), None
+    if pos == 'foreach':
+        return f'  - name: vpoison\n    foreach:\n      - {T}\n      - {T}\n', None
+    if pos == 'foreach_nested':
+        return f'  - name: vpoison\n    foreach:\n      - [{T}, [x]]\n      - {{k: {T}, l: []}}\n', None
+    if pos == 'onerror':
+        return (f'  - name: pypyr.steps.assert\n    swallow: True\n    onError:\n      info: {T}\n      l: [{T}]\n'
+                f'    in:\n      assert:\n        this: False\n' + P), None
+    if pos in ('pype_args', 'pype_args_parent'):
+        use = 'True' if pos.endswith('parent') else 'False'
+        return (f'  - name: pypyr.steps.pype\n    in:\n      pype:\n        name: tagchild\n        useParentContext: {use}\n'
+                f'        args:\n          x: {T}\n          l: [{T}]\n          tag: "{{tag}}"\n' + P), 'steps:\n  - vpoison\n'
+    if pos == 'set':
+        return f'  - name: pypyr.steps.set\n    in:\n      set:\n        k: {T}\n        m: {{n: [{T}]}}\n' + P, None
+    if pos == 'default':
+        return f'  - name: pypyr.steps.default\n    in:\n      defaults:\n        k: {T}\n        m: {{n: [{T}]}}\n' + P, None
+    if pos == 'decorators':
+        return (f'  - name: vpoison\n    run: {S}\n    skip: !py "False"\n    retry:\n      max: {S}\n    in:\n      body: {T}\n'
+                f'  - name: vpoison\n    while:\n      max: !py "1 + 1"\n    in:\n      body: {T}\n'), None
+    # in_two_steps: the same anchored payload under two steps
+    return (f'  - name: vpoison\n    in:\n      body: &P {T.replace("&A", "&B").replace("*A", "*B")}\n'
+            f'  - name: vpoison\n    in:\n      other: *P\n'), None
+
+
+def tag_cases(env):
+    rng = env.rng
+    out = []
+    for j, pos in enumerate(TAG_POSITIONS):          # directed: every position, payloads in rotation
+        for T in (TAG_VALUES[j % len(TAG_VALUES)], TAG_VALUES[(j + 3) % 4], TAG_VALUES[(3 * j + 1) % len(TAG_VALUES)]):
+            out.append((pos, [T]))
+    for _ in range(env.n(40, 3000)):
+        out.append((rng.choice(TAG_POSITIONS), None))
+    for pos, ts in out:
+        nsteps = 1 if ts else rng.choice([1, 1, 2, 3])
+        text, child = 'steps:\n', None
+        poss = [pos] + [rng.choice(TAG_POSITIONS) for _ in range(nsteps - 1)]
+        for q in poss:
+            T = ts[0] if ts else rng.choice(TAG_VALUES)
+            if q == 'in_two_steps' and '&' in T and len(poss) > 1:
+                T = TAG_VALUES[0]
+            st, ch = tag_step(q, T, rng)
+            text += st
+            child = child or ch
+        n_anchor = [0]
+
+        def renumber(m):
+            if m.group(0) == '&A':
+                n_anchor[0] += 1
+            return f'{m.group(0)[0]}A{n_anchor[0]}'
+        text = re.sub(r'[&*]A\b', renumber, text)
+        pipes = {'tagpipe': text}
+        if child:
+            pipes['tagchild'] = child
+        tags = ['a', 'b', 'a'] if ts else [rng.choice('abc') for _ in range(rng.choice([2, 3, 4]))]
+        yield ({'kind': 'tags', 'pipes': pipes, 'positions': poss, 'tags': tags, 'thread': True,
+                'via': 'runner' if ts else pick_via(rng), 'post_poison': bool(ts) or rng.random() < 0.5},
+               'directed:' + pos if ts else 'random')
+
+
+def check_tags(env, res, sb, case, tag='replay'):
+    import threading
+    names = list(case['pipes'])
+    sb.install(case['pipes'], {})
+    baseline = {n: I.wire(sb.fresh(n)) for n in names}
+    bodies = sb.load(names)
+    cfg0 = config_wire(sb)
+    shared = I.SharedIndex(names, bodies, sb.config)
+    via = case.get('via', 'runner')
+    found, runs = [], []
+    poison = sb_poison(sb)
+
+    def one(k, t, where):
+        with I.StepObserver(shared) as so:
+            outcome, ctx = sb.run('tagpipe', dict_in={'tag': t, 'raw': 'r'}, via=via, key=0)
+            if ctx is not None:
+                so.record(ctx, '<final>')
+            elif so.first_ctx is not None:
+                so.record(so.first_ctx, '<final>')
+        final = I.norm(so.events[-1]['ctx']) if so.events else None
+        for j, ev in enumerate(so.events):
+            res.count('tags:shared-immutable-object-held (not reported)', len(ev.get('frozen', ())))
+            if ev['labels']:
+                found.append((f"{where}, after step #{j} ({ev['step']}): the context reaches, by reference, object(s) of the "
+                              f"cached definition {ev['labels'][:3]} (looking inside tag objects / object attributes); the "
+                              'pipeline changes what it reaches in place',
+                              dict(signature_for_labels(ev['labels'], 'tags'),
+                                   inside_object=any(any(str(p).startswith('.') for p in lb['path']) for lb in ev['labels']))))
+                break
+        found.extend(check_shared_unchanged(sb, names, baseline, cfg0, f'after {where}'))
+        if case.get('post_poison') and sb.last_live is not None:
+            # the caller goes on working with the context it got back: in-place changes everywhere (the run is over)
+            poison(list(dict.values(sb.last_live)), 'post')
+            found.extend(check_shared_unchanged(sb, names, baseline, cfg0, f'after {where} and an in-place change of '
+                                                                        'everything its final context reaches'))
+        return {'tag': t, 'outcome': outcome, 'final': final, 'steps': [I.norm(e['ctx']) for e in so.events]}
+    for k, t in enumerate(case['tags']):
+        runs.append(one(k, t, f'run {k + 1} (tag {t})'))
+    if case.get('thread'):
+        box = {}
+        th = threading.Thread(target=lambda: box.update(r=one(len(runs), case['tags'][0], 'the run on another thread')), daemon=True)
+        th.start()
+        th.join(20)
+        if 'r' in box:
+            runs.append(box['r'])
+        else:
+            found.append(('a run of the pipeline on another thread did not come back within 20 s',
+                          {'monitor': 'rerun-differs', 'stream': 'tags', 'effect': 'never-returned'}))
+    first = {}
+    for k, r in enumerate(runs):
+        if r['tag'] in first:
+            a = runs[first[r['tag']]]
+            if canon(a['outcome']) != canon(r['outcome']) or canon(a['steps']) != canon(r['steps']):
+                d = diff_path(a['final'], r['final']) if a['final'] is not None and r['final'] is not None else None
+                found.append((f"run {k + 1} of the same pipeline with an equal initial context (tag {r['tag']}) differs from run "
+                              f"{first[r['tag']] + 1}" + (f' at context{list(d)}' if d else ' (outcome / step trace)')
+                              + (' - on another thread' if case.get('thread') and k == len(runs) - 1 else ''),
+                              {'monitor': 'rerun-differs', 'stream': 'tags'}))
+        else:
+            first[r['tag']] = k
+    res.case(case)
+    res.count('tags:' + tag.split(':')[0])
+    for q in case['positions']:
+        res.count('tags:position:' + q)
+    res.count('tags:runs', len(runs))
+    res.count('tags:runs-that-changed-something-in-place', sum(1 for r in runs if r['final'] and 'poisoned' in canon(r['final'])))
+    seen = set()
+    for detail, sig in found:
+        if canon(sig) in seen:
+            continue
+        seen.add(canon(sig))
+        res.violation(case, detail, signature=sig,
+                      impl={'runs': [{'tag': r['tag'], 'outcome': r['outcome'], 'final': r['final']} for r in runs],
+                            'pipeline': case['pipes']['tagpipe']})
+
+
+def sb_poison(sb):
+    import importlib
+    return importlib.import_module('vpoison').poison
+
+
+CHECKERS = {'alias': check_alias, 'history': check_history, 'orders': check_orders, 'loads': check_loads, 'threads': check_threads,
+            'tags': check_tags}
 
 
 CASE_TIMEOUT_S = float(os.environ.get('C12_CASE_TIMEOUT_S', '30'))     # a case takes well under a second
@@ -1512,6 +1688,12 @@ def run(env, res):
                 'with the Lean heap model (calls on Pipeline objects -> operations; formatting op on definition objects): '
                 'context deep value + shared objects reachable by id(); the model is sent the STEPS and reads the operations '
                 'itself (opsOf), which must equal the harness reading operation by operation; runs that raise mid-way; '
+                '(a2) yaml tag objects as arguments (45 directed + random: !jsonify over mappings / sequences / nested / anchored, '
+                '!py, !sic as `in` arguments at any depth, kept by save, left by a failing step, foreach items, onError, pype args, '
+                'set / default values, decorator values) with a step that changes in place every mutable container reachable from '
+                'the context THROUGH object attributes (.value, __dict__, __slots__): 2-4 runs + a thread, id() monitor (looks inside '
+                'objects) after every step, definition deep-equality after every run and after an in-place change of the final '
+                'context, re-run equality - implementation only; '
                 '(b) histories of 2-6 runs over 1-3 such pipelines, '
                 'deep snapshots of every cached definition and of config after every run, run k vs run 1, contexts of '
                 'finished runs unchanged; (b2) 2-4 root pipelines in different directories pyping children by relative '
@@ -1528,7 +1710,7 @@ def run(env, res):
                 'threads (cold caches, short switch interval); (c) 2-3 runs on real threads (same entry: the same '
                 'Pipeline object when via=object) under 6-12 schedules per pipeline set, cold and warm caches, each vs its '
                 'solo run. non-trivial = distinct (pipelines, config, entries, order, via, schedule)')
-    cases = list(alias_cases(env)) + list(history_cases(env)) + list(order_cases(env)) + list(load_cases(env)) + list(thread_cases(env))
+    cases = list(alias_cases(env)) + list(tag_cases(env)) + list(history_cases(env)) + list(order_cases(env)) + list(load_cases(env)) + list(thread_cases(env))
     only = os.environ.get('C12_STREAMS')          # debugging / self-test: run a subset of the streams
     if only:
         cases = [c for c in cases if c[0]['kind'] in only.split(',')]
